@@ -148,6 +148,13 @@ class Report:
         out = ROOT / "evidence" / f"{self.pid}.json"
         out.parent.mkdir(exist_ok=True)
         out.write_text(json.dumps(ev, indent=1, default=str) + "\n")
+        if self.violations and os.environ.get("VERIF_DEBUG"):
+            hist: Dict[str, int] = {}
+            for v in self.violations:
+                k = json.dumps(v["sig"], sort_keys=True, default=str)
+                hist[k] = hist.get(k, 0) + 1
+            for k, n in sorted(hist.items(), key=lambda kv: -kv[1])[:60]:
+                print(f"  SIG x{n}: {k}", flush=True)
         if self.harness_errors:
             code = EXIT_HARNESS
         elif self.violations:
